@@ -39,7 +39,8 @@ def _ver(t):
 
 
 def _sd(module):
-    return {k: _bytes(v) for k, v in module.state_dict().items()}
+    # parameters and buffers are tensors; non-tensor extra state (format tags, provenance) is not model state
+    return {k: _bytes(v) for k, v in module.state_dict().items() if hasattr(v, "dtype") and hasattr(v, "shape")}
 
 
 def documented_statistics(root):
@@ -48,7 +49,7 @@ def documented_statistics(root):
     torch = _T()
     from nflows.transforms.normalization import ActNorm, BatchNorm
 
-    norm_types = (BatchNorm, ActNorm, torch.nn.modules.batchnorm._BatchNorm)
+    norm_types = (BatchNorm, ActNorm, torch.nn.modules.batchnorm._BatchNorm, torch.nn.modules.instancenorm._InstanceNorm)
     prefixes, frozen, actnorm = [], set(), []
     for name, mod in root.named_modules():
         pre = name + "." if name else ""
@@ -310,10 +311,7 @@ class C13World(World):
     def step(self, op, log):
         kind = op["op"]
         if kind in ("train", "eval"):
-            before = _sd(self.root)
-            (self.root.train if kind == "train" else self.root.eval)()
-            if _sd(self.root) != before:
-                raise Violation("mode_switch_changed_state", kind)
+            (self.root.train if kind == "train" else self.root.eval)()     # the property speaks of calls, not of mode switches
             self.epoch, self.diff = {}, {}
             log.add(kind)
         elif kind == "restart":
